@@ -90,10 +90,15 @@ static struct Runnable **TaskList__emplace_back(struct TaskList *l, struct Runna
 static void TaskList__erase(struct TaskList *l, struct TaskIt pos_, struct TaskIt *r) {
   struct TaskIt *pos = &pos_;
   __CPROVER_assert(pos->idx == 0 && l->len > 0, "list::erase model covers the front position");
+  __CPROVER_assert(g_held_queue, "C07 a task changes hands only with the queue mutex held");
+  __CPROVER_assert(g_read_valid && g_last_read_idx == pos->idx, "C07 the worker removes exactly the entry it took the task from (the oldest one)");
+  __CPROVER_assert(g_taken_runs == g_taken_deletes, "C07 the previous task was run and destroyed before the next one is taken");
+  g_taken = l->items[l->head]; g_taken_runs = 0; g_taken_deletes = 0; g_read_valid = 0;
   l->head++; l->len--; r->l = l; r->idx = 0;
 }
 static struct Runnable **TaskIt__op_star(struct TaskIt *i) { __CPROVER_assert(i->idx < i->l->len, "list iterator dereferenced inside the list");
-  __CPROVER_assume(i->l->items[i->l->head + i->idx] != 0 && (i->idx == g_wq || i->l->items[i->l->head + i->idx] != g_wtask)); return &i->l->items[i->l->head + i->idx]; }
+  __CPROVER_assume(i->l->items[i->l->head + i->idx] != 0 && (i->idx == g_wq || i->l->items[i->l->head + i->idx] != g_wtask));
+  g_last_read_idx = i->idx; g_read_valid = 1; return &i->l->items[i->l->head + i->idx]; }
 static struct TaskIt *TaskIt__op_inc(struct TaskIt *i) { i->idx++; return i; }
 static void TaskIt__ctor__TaskIt_ref(struct TaskIt *a, struct TaskIt *b) { *a = *b; }
 static _Bool X_op_eq__TaskIt_ref_TaskIt_ref(struct TaskIt *a, struct TaskIt *b) { return a->idx == b->idx; }
@@ -104,9 +109,21 @@ static void X_operator_delete(void *p) { }
 /* watched task: typestate QUEUED -> TAKEN -> RAN -> DELETED or QUEUED -> DELETED (C07/C08) */
 static void Runnable__run__virtual(struct Runnable *r) {
   __CPROVER_assert(!g_held_queue && !g_held_pool, "C15/C08 a user task runs without pool locks held");
+  if (g_role == ROLE_WORKER) {
+    __CPROVER_assert(r == g_taken && g_taken_runs == 0 && g_taken_deletes == 0, "C07 a worker runs exactly the task it took out of the queue, once, before destroying it");
+    g_taken_runs++;
+  }
   if (r == g_wtask) g_wtask_runs++;
 }
-static void Runnable__delete(struct Runnable *r) { if (r == g_wtask) g_wtask_deletes++; }
+static void Runnable__delete(struct Runnable *r) {
+  if (g_role == ROLE_WORKER) {
+    __CPROVER_assert(r == g_taken && g_taken_runs == 1 && g_taken_deletes == 0, "C07 a worker destroys the task it ran, once, after the run returned");
+    g_taken_deletes++;
+  } else {
+    __CPROVER_assert(g_held_queue, "C07 the owner destroys only tasks that are still queued (queue mutex held)");
+  }
+  if (r == g_wtask) g_wtask_deletes++;
+}
 void Thread__ctor_default(struct Thread *t) { t->m_thread.id = 0; FLAG(t) = 0; }
 
 void Thread__dtor(struct Thread *t) { __CPROVER_assert(t == g_last_joined, "C08 a worker thread object is destroyed only after it was joined"); g_last_joined = 0; if (t == g_wthread) g_wthread_deletes++; }
